@@ -1,4 +1,5 @@
 """Unit registry: which contracts (units) decide which property, at which tier."""
+from . import core, gen
 from .runner import KaniUnit, VerusUnit, AuditUnit
 
 STUB_ASSUMPTIONS = [
@@ -78,6 +79,311 @@ U_ORDERING = KaniUnit(
     functions=[("expressions.rs", "check_ordering", None)],
     prepare=prep_common, timeout=600, assumptions=FMT_BT[:1])
 
+def prep_binop(sc):
+    """T3: slice the scalar arm block and the dot-operator arms of evaluate_binary_op_ast verbatim."""
+    prep_values(sc)
+    if getattr(sc, "_binop", False):
+        return
+    from . import slicing
+    src = sc.read("expressions.rs")
+    arm, a0, a1 = slicing.slice_block_after(src, "(lhs, rhs) => match op {", "U-BINOP-SCALAR", "expressions.rs",
+                                            within_fn="evaluate_binary_op_ast")
+    dot, d0, d1 = slicing.slice_block_after_comment(src, "// Handle dot operators first - they never broadcast", "match op {",
+                                                    "U-BINOP-DISPATCH", "expressions.rs", within_fn="evaluate_binary_op_ast")
+    text = (
+        "#[cfg(kani)]\n#[allow(unused_variables, unreachable_code, clippy::all)]\n"
+        "pub(crate) fn verif_binop_scalar_arm(op: BinaryOp, lhs: Value, rhs: Value, heap: Rc<RefCell<Heap>>, "
+        "bindings: Rc<Environment>, call_depth: usize, source: Rc<str>, op_span: Span) -> Result<Value, RuntimeError> {\n"
+        "    match op " + arm + "\n}\n\n"
+        "#[cfg(kani)]\n#[allow(unused_variables, unreachable_code, clippy::all)]\n"
+        "pub(crate) fn verif_binop_dot_arms(op: BinaryOp, lhs: Value, rhs: Value, heap: Rc<RefCell<Heap>>, "
+        "source: Rc<str>, op_span: Span) -> Result<Value, RuntimeError> {\n"
+        "    match op " + dot + "\n"
+        "    unsafe { verif_expr_binop::VERIF_FELL_THROUGH = true; }\n    Ok(Value::Null)\n}\n")
+    sc.append_text("expressions.rs", text, "T3 arm slicing",
+                   {"scalar_arm": {"lines": [core.line_of(src, a0), core.line_of(src, a1)], "sha256": core.sha256(arm)},
+                    "dot_arms": {"lines": [core.line_of(src, d0), core.line_of(src, d1)], "sha256": core.sha256(dot)},
+                    "dropped": "enclosing dispatch: the two evaluate_ast(left/right) calls, op_span construction, "
+                               "`match (lhs, rhs)` patterns (audited by U-BINOP-ROUTE)"})
+    sc._binop = True
+
+
+def prep_bcast(sc):
+    """T3: slice the list-scalar and list-list blocks of evaluate_binary_op_ast verbatim."""
+    prep_binop(sc)
+    if getattr(sc, "_bcast", False):
+        return
+    from . import slicing
+    src = sc.read("expressions.rs")
+    ls, a0, a1 = slicing.slice_block_after(src, "(Value::List(list), scalar) | (scalar, Value::List(list)) => {",
+                                           "U-BCAST-LS", "expressions.rs", within_fn="evaluate_binary_op_ast")
+    ll, b0, b1 = slicing.slice_block_after(src, "(Value::List(list_l), Value::List(list_r)) => {",
+                                           "U-BCAST-LL", "expressions.rs", within_fn="evaluate_binary_op_ast")
+    text = (
+        "#[cfg(kani)]\n#[allow(unused_variables, unreachable_code, clippy::all)]\n"
+        "pub(crate) fn verif_binop_list_scalar(op: BinaryOp, lhs: Value, list: crate::heap::ListPointer, scalar: Value, "
+        "heap: Rc<RefCell<Heap>>, bindings: Rc<Environment>, call_depth: usize, source: Rc<str>, op_span: Span) "
+        "-> Result<Value, RuntimeError> " + ls + "\n\n"
+        "#[cfg(kani)]\n#[allow(unused_variables, unreachable_code, clippy::all)]\n"
+        "pub(crate) fn verif_binop_list_list(op: BinaryOp, list_l: crate::heap::ListPointer, list_r: crate::heap::ListPointer, "
+        "heap: Rc<RefCell<Heap>>, bindings: Rc<Environment>, call_depth: usize, source: Rc<str>, op_span: Span) "
+        "-> Result<Value, RuntimeError> " + ll + "\n")
+    sc.append_text("expressions.rs", text, "T3 arm slicing",
+                   {"list_scalar_block": {"lines": [core.line_of(src, a0), core.line_of(src, a1)], "sha256": core.sha256(ls)},
+                    "list_list_block": {"lines": [core.line_of(src, b0), core.line_of(src, b1)], "sha256": core.sha256(ll)},
+                    "dropped": "the `match (lhs, rhs)` pattern that binds list / scalar / list_l / list_r (audited by U-BINOP-ROUTE)"})
+    sc._bcast = True
+
+
+def audit_binop_route():
+    """Frame audit: in `match (lhs, rhs)` of evaluate_binary_op_ast every arm before the final `(lhs, rhs)` arm
+    requires a list operand, so every scalar pair reaches the scalar arm block proved by U-BINOP-SCALAR."""
+    import os
+    from . import slicing
+    src = open(os.path.join(core.REPO, "blots-core", "src", "expressions.rs")).read()
+    blk, b0, b1 = slicing.slice_block_after(src, "match (lhs, rhs) {", "U-BINOP-ROUTE", "expressions.rs",
+                                            within_fn="evaluate_binary_op_ast")
+    pats = slicing.top_level_arm_patterns(blk)
+    obs = []
+    if not pats or pats[-1].replace(" ", "") != "(lhs,rhs)":
+        return [{"case": "last-arm-is-the-catch-all-scalar-arm", "ok": False, "detail": f"patterns: {pats}"}]
+    obs.append({"case": "last-arm-is-the-catch-all-scalar-arm", "ok": True})
+    for i, p in enumerate(pats[:-1]):
+        obs.append({"case": f"arm-{i}-requires-a-list-operand", "ok": "Value::List(" in p, "detail": p[:200]})
+    # the dot-operator block precedes the `match (lhs, rhs)` dispatch
+    dot = src.find("// Handle dot operators first - they never broadcast")
+    obs.append({"case": "dot-operator-block-precedes-dispatch", "ok": 0 < dot < b0})
+    return obs
+
+
+BINOP_STUBS = STUB_ASSUMPTIONS[:4] + [
+    "Kani stub FunctionDef::call -> probe (records this_value/args/call_depth, returns an arbitrary scalar or an error): "
+    "the arm is verified against the callee's contract, not its body",
+    "Kani stub Value::stringify_internal -> empty string (only used to build error messages)",
+    "operands range over numbers (all f64 incl. NaN/inf), booleans, null and built-in functions; strings, lists, records "
+    "and lambdas need heap cells and are NOT covered (string concatenation by + is not decided)",
+    "f64::powf is a primitive: ^ is only proved to return a number for two numbers",
+]
+
+U_BINOP_SCALAR = KaniUnit(
+    "U-BINOP-SCALAR", "scalar arm block of evaluate_binary_op_ast (sliced verbatim): IEEE results bit-exact for + - * / %, "
+    "comparisons follow Value::compare/equals, and/or require booleans, ?? returns right exactly when left is null, "
+    "via/into apply the function once to the left operand; all 20 non-dot operators x all scalar operand pairs",
+    modules=[("expressions.rs", "verif_expr_binop.rs")], harnesses=gen.binop_scalar_harness_names(),
+    functions=[("expressions.rs", "evaluate_binary_op_ast", None)],
+    prepare=prep_binop, timeout=1500, assumptions=BINOP_STUBS,
+    dropped=["T3: the dispatch around the arm block (operand evaluation, op_span, match (lhs, rhs) patterns)"])
+
+U_BINOP_DISPATCH = KaniUnit(
+    "U-BINOP-DISPATCH", "dot-operator arms of evaluate_binary_op_ast (sliced verbatim): the six dot comparisons return "
+    "Bool(equals) / its negation / check_ordering(compare) before the broadcasting dispatch, and no other operator returns there",
+    modules=[("expressions.rs", "verif_expr_binop.rs")], harnesses=["u_binop_dot"],
+    functions=[("expressions.rs", "evaluate_binary_op_ast", None)],
+    prepare=prep_binop, timeout=1500, assumptions=BINOP_STUBS[:3],
+    dropped=["T3: as U-BINOP-SCALAR"])
+
+BCAST_ASSUME = BINOP_STUBS[:4] + [
+    "Kani stub FunctionDef::call -> assert(false): the 17 broadcasting operators never call a function",
+    "list elements and the scalar range over numbers (all f64), booleans and null; strings/nested lists as elements are not covered",
+    "expected element results are computed by the scalar arm block itself (proved against the statement by U-BINOP-SCALAR)"]
+
+U_BCAST_LS = KaniUnit(
+    "U-BCAST-LS", "list-scalar block of evaluate_binary_op_ast (sliced verbatim), both operand orders: result is the list of "
+    "scalar-arm results element by element in order; fails exactly when some element operation fails",
+    modules=[("expressions.rs", "verif_expr_binop.rs"), ("expressions.rs", "verif_expr_bcast.rs")],
+    harnesses=gen.bcast_harness_names("ls"),
+    functions=[("expressions.rs", "evaluate_binary_op_ast", None)],
+    prepare=prep_bcast, timeout=1500, complete=False, bound="lists of length 0..=2", assumptions=BCAST_ASSUME,
+    dropped=["T3: the match (lhs, rhs) pattern around the block"])
+
+U_BCAST_LL = KaniUnit(
+    "U-BCAST-LL", "list-list block of evaluate_binary_op_ast (sliced verbatim): different lengths fail; otherwise the list of "
+    "scalar-arm results element by element in order; fails exactly when some element operation fails",
+    modules=[("expressions.rs", "verif_expr_binop.rs"), ("expressions.rs", "verif_expr_bcast.rs")],
+    harnesses=gen.bcast_harness_names("ll"),
+    functions=[("expressions.rs", "evaluate_binary_op_ast", None)],
+    prepare=prep_bcast, timeout=1500, complete=False, bound="lists of length 0..=2 (each side)", assumptions=BCAST_ASSUME,
+    dropped=["T3: the match (lhs, rhs) pattern around the block"])
+
+U_BINOP_ROUTE = AuditUnit(
+    "U-BINOP-ROUTE", "every arm of `match (lhs, rhs)` before the scalar arm requires a list operand; the dot block precedes it",
+    audit_binop_route, functions=[("expressions.rs", "evaluate_binary_op_ast", None)])
+
+CALL_STUBS = [STUB_ASSUMPTIONS[0], STUB_ASSUMPTIONS[3],
+              "Kani stub time::Instant::now -> fixed instant (profiling statistics only)",
+              "Kani stub FunctionDef::get_name -> empty string (used for error text and profiling records only)",
+              "Kani stubs (probes) for expressions::evaluate_ast and BuiltInFunction::call: record depth / environment / "
+              "argument count and return an arbitrary scalar or error (callee contract, not callee body)"]
+
+U_DEPTH = KaniUnit(
+    "U-DEPTH", "FunctionDef::call: a rejected argument count or call_depth > 1000 is an error before the callee runs; "
+    "otherwise the callee runs exactly once with call_depth + 1 (all built-ins, all usize depths)",
+    modules=[("functions.rs", "verif_call.rs")], harnesses=["u_depth_builtin"],
+    functions=[("functions.rs", "call", "FunctionDef"), ("functions.rs", "check_arity", "FunctionDef")],
+    prepare=prep_values, timeout=1200, assumptions=CALL_STUBS)
+
+U_ARITY_LAMBDA = KaniUnit(
+    "U-ARITY-LAMBDA", "LambdaDef::get_arity / check_arity for every parameter list of the documented shape (required*, "
+    "optional*, at most one trailing rest; <= 3 parameters): Exact / Between / AtLeast, and any other count is an error",
+    modules=[("functions.rs", "verif_call.rs")], harnesses=["u_arity_lambda"],
+    functions=[("values.rs", "get_arity", "LambdaDef"), ("functions.rs", "check_arity", "FunctionDef")],
+    prepare=prep_values, timeout=1200, complete=False, bound="parameter lists of length <= 3",
+    assumptions=CALL_STUBS[:2] + CALL_STUBS[3:4])
+
+U_BIND_SAFE = KaniUnit(
+    "U-BIND-SAFE", "FunctionDef::call on lambdas with ANY order of parameter kinds (<= 3 parameters) and 0..4 arguments: "
+    "no panic (no out-of-range index), rejected counts and depth > 1000 fail before the body, body gets depth + 1",
+    modules=[("functions.rs", "verif_call.rs")], harnesses=["u_bind_safe"],
+    functions=[("functions.rs", "call", "FunctionDef")],
+    prepare=prep_values, timeout=1500, complete=False, bound="<= 3 parameters, <= 4 arguments", assumptions=CALL_STUBS)
+
+U_BIND = KaniUnit(
+    "U-BIND", "FunctionDef::call, documented parameter shapes (<= 3 parameters, <= 4 arguments): required/optional/rest "
+    "bind positionally; parameters shadow self name, inputs, captured scope and caller; captured scope shadows caller; "
+    "nothing leaks into or changes the caller environment; result and failure propagate",
+    modules=[("functions.rs", "verif_call.rs")], harnesses=["u_bind_positional"],
+    functions=[("functions.rs", "call", "FunctionDef"), ("environment.rs", "get", "Environment")],
+    prepare=prep_values, timeout=1800, complete=False, bound="<= 3 parameters, <= 4 arguments, fixed name pool",
+    assumptions=CALL_STUBS)
+
+U_CONVERT = KaniUnit(
+    "U-CONVERT", "Unit::convert_to_base / convert_from_base are bit-exactly v*c, v/c, c/v (inf at 0) and the temperature "
+    "maps for all f64; units::convert fails across categories and on unresolved identifiers and otherwise composes "
+    "to-base / from-base (resolve_unit replaced by its contract)",
+    modules=[("units.rs", "verif_units.rs")], harnesses=["u_convert_formulas", "u_convert_convert"],
+    functions=[("units.rs", "convert_to_base", "Unit"), ("units.rs", "convert_from_base", "Unit"), ("units.rs", "convert", None)],
+    prepare=prep_common, timeout=900,
+    assumptions=STUB_ASSUMPTIONS[:2] + ["Kani stub units::resolve_unit -> arbitrary unit (any category, any coefficient, any "
+                                        "temperature pair) or error: convert is verified against resolve_unit's contract"])
+
+U_JSON_SCALAR = KaniUnit(
+    "U-JSON-SCALAR", "SerializableValue::from_json(to_json(v)) == v and from_value(to_value(v)) == v, bit-exactly, for every "
+    "finite f64 (incl. -0), booleans and null",
+    modules=[("values.rs", "verif_json.rs")], harnesses=["u_json_scalar_roundtrip", "u_json_scalar_heap_roundtrip"],
+    functions=[("values.rs", "from_json", "SerializableValue"), ("values.rs", "to_json", "SerializableValue"),
+               ("values.rs", "from_value", "SerializableValue"), ("values.rs", "to_value", "SerializableValue")],
+    prepare=prep_values, timeout=1500,
+    assumptions=FMT_BT + ["serde_json::Number::from_f64 / as_f64 are verified as compiled (real dependency code, no stub)"])
+
+def prep_assign(sc):
+    """T3: slice the Expr::Assignment arm of evaluate_ast verbatim."""
+    prep_values(sc)
+    if getattr(sc, "_assign", False):
+        return
+    from . import slicing
+    src = sc.read("expressions.rs")
+    arm, a0, a1 = slicing.slice_block_after(src, "Expr::Assignment { ident, value } => {", "U-ASSIGN", "expressions.rs",
+                                            within_fn="evaluate_ast")
+    text = ("#[cfg(kani)]\n#[allow(unused_variables, unreachable_code, clippy::all)]\n"
+            "pub(crate) fn verif_assignment_arm(expr: &SpannedExpr, ident: &String, value: &Box<SpannedExpr>, "
+            "heap: Rc<RefCell<Heap>>, bindings: Rc<Environment>, call_depth: usize, source: Rc<str>) "
+            "-> Result<Value, RuntimeError> " + arm + "\n")
+    sc.append_text("expressions.rs", text, "T3 arm slicing",
+                   {"assignment_arm": {"lines": [core.line_of(src, a0), core.line_of(src, a1)], "sha256": core.sha256(arm)},
+                    "dropped": "enclosing `match &expr.node` dispatch of evaluate_ast"})
+    sc._assign = True
+
+
+def audit_env_insert_sites():
+    """Frame audit (C03): `bindings.insert(` / Environment::insert call sites in blots-core are exactly the Assignment arm
+    of evaluate_ast and evaluate_do_block_expr (both under contract)."""
+    import os
+    import re
+    obs = []
+    allowed = {("expressions.rs", "evaluate_ast"), ("expressions.rs", "evaluate_do_block_expr")}
+    root = os.path.join(core.REPO, "blots-core", "src")
+    for fn in sorted(os.listdir(root)):
+        if not fn.endswith(".rs") or fn in ("tests.rs", "do_block_tests.rs", "environment.rs"):
+            continue
+        src = open(os.path.join(root, fn)).read()
+        cut = src.find("#[cfg(test)]")
+        code = src if cut < 0 else src[:cut]
+        for m in re.finditer(r"\b(\w*bindings|\w*env\w*)\.insert\(", code):
+            if core.find_code(code, m.group(0), m.start(), m.end()) != m.start():
+                continue
+            if m.group(1) in ("local_bindings",):
+                continue  # a plain HashMap under construction in FunctionDef::call (covered by U-BIND)
+            # enclosing fn
+            encl = None
+            for fm in re.finditer(r"^(?:pub(?:\([a-z]+\))?\s+)?fn\s+(\w+)", code[:m.start()], flags=re.M):
+                encl = fm.group(1)
+            ok = (fn, encl) in allowed
+            obs.append({"case": f"insert-site:{fn}:{encl}:{m.group(1)}", "ok": ok,
+                        "detail": f"line {core.line_of(code, m.start())}"})
+    if not obs:
+        obs.append({"case": "insert-sites-found", "ok": False, "detail": "no environment insert site found (anchor lost)"})
+    return obs
+
+
+ASSIGN_STUBS = [STUB_ASSUMPTIONS[0], STUB_ASSUMPTIONS[3],
+                "Kani stub (probe) for expressions::evaluate_ast on the right-hand side: records scope identity / depth, "
+                "returns an arbitrary scalar or error (lambda values, which also set LambdaDef.name, are not covered)",
+                "names range over a fixed pool forcing every case of the statement (fresh, locally bound, bound in an "
+                "outer scope, built-in, inputs, constants, each keyword the evaluator can see)"]
+
+U_ASSIGN = KaniUnit(
+    "U-ASSIGN", "Expr::Assignment arm of evaluate_ast (sliced verbatim): keywords, built-in names, inputs, constants and "
+    "visible names are refused without evaluating the right-hand side; otherwise the RHS is evaluated once, a failure "
+    "binds nothing, success binds exactly that name locally; all other bindings and the outer scope are unchanged",
+    modules=[("expressions.rs", "verif_expr_assign.rs")], harnesses=["u_assign_toplevel"],
+    functions=[("expressions.rs", "evaluate_ast", None), ("environment.rs", "insert", "Environment"),
+               ("environment.rs", "contains_key", "Environment")],
+    prepare=prep_assign, timeout=1800, complete=False, bound="name pool of 16 identifiers; scope chain of depth 2",
+    assumptions=ASSIGN_STUBS, dropped=["T3: the match dispatch around the Assignment arm"])
+
+U_DOASSIGN = KaniUnit(
+    "U-DOASSIGN", "evaluate_do_block_expr: keywords refused; otherwise evaluates once in the block scope; a block-local "
+    "binding may shadow but never alters or leaks into the enclosing scope",
+    modules=[("expressions.rs", "verif_expr_assign.rs")], harnesses=["u_doassign"],
+    functions=[("expressions.rs", "evaluate_do_block_expr", None)],
+    prepare=prep_assign, timeout=1800, complete=False, bound="name pool of 12 identifiers; scope chain of depth 3",
+    assumptions=ASSIGN_STUBS)
+
+U_ENV = KaniUnit(
+    "U-ENV", "Environment scope chain: a fresh child sees exactly the parent's view; insert into a child never changes the "
+    "parent's view; local overrides parent; contains_key iff get is Some; contains_key_local is exactly the local names",
+    modules=[("expressions.rs", "verif_expr_assign.rs")], harnesses=["u_env_chain"],
+    functions=[("environment.rs", "get", "Environment"), ("environment.rs", "insert", "Environment"),
+               ("environment.rs", "contains_key", "Environment"), ("environment.rs", "contains_key_local", "Environment"),
+               ("environment.rs", "extend", "Environment")],
+    prepare=prep_assign, timeout=1800, complete=False, bound="3 names, chain depth 2, arbitrary initial parent bindings",
+    assumptions=[STUB_ASSUMPTIONS[3]])
+
+U_ENV_AUDIT = AuditUnit(
+    "U-ENV-AUDIT", "every Environment::insert call site in blots-core is in evaluate_ast's Assignment arm or "
+    "evaluate_do_block_expr (both under contract)", audit_env_insert_sites)
+
+U_QUOTE = KaniUnit(
+    "U-QUOTE", "string_to_source / format_record_key / is_valid_identifier: the emitted text reads back by the grammar's "
+    "escape-free literal rule as the same string (literal, or parenthesised concatenation / computed key when both quote "
+    "kinds occur); bare keys only for grammar identifiers that are not reserved words",
+    modules=[("ast_to_source.rs", "verif_quote.rs")], harnesses=["u_quote_string", "u_quote_record_key", "u_quote_reserved"],
+    functions=[("ast_to_source.rs", "string_to_source", None), ("ast_to_source.rs", "quote_string_literal", None),
+               ("ast_to_source.rs", "format_record_key", None), ("ast_to_source.rs", "is_valid_identifier", None)],
+    prepare=prep_common, timeout=1800, complete=False,
+    bound="strings of <= 3 characters over {a, \", ', \\, _, 1, space}; real format!/String code (no stub)",
+    assumptions=["the literal reader in the harness transcribes grammar.pest's `string` rule (no escapes; ends at the opening quote)"])
+
+BUILTIN_STUBS = STUB_ASSUMPTIONS[:4] + [
+    "Kani stub FunctionDef::call -> assert(false): these built-in arms take no callback",
+    "BuiltInFunction::call is entered with a CONSTANT built-in, so only that arm is explored (the function is real, unsliced)"]
+
+U_UCMP = KaniUnit(
+    "U-UCMP", "ugt/ult/ugte/ulte arms of BuiltInFunction::call: equal to the ordering test when Value::compare is Some, false "
+    "when it is None; never an error; all scalar pairs incl. booleans, null, built-ins, mixed types",
+    modules=[("functions.rs", "verif_builtins.rs")], harnesses=["u_ucmp_ugt", "u_ucmp_ult", "u_ucmp_ugte", "u_ucmp_ulte"],
+    functions=[("functions.rs", "call", "BuiltInFunction")],
+    prepare=prep_values, timeout=1500, assumptions=BUILTIN_STUBS)
+
+U_GUARD = KaniUnit(
+    "U-GUARD", "numeric guards of range / round / abs / floor / ceil / trunc / to_bool through the real BuiltInFunction::call: "
+    "no panic (overflow, cast, index) for EVERY f64 argument; range rejects unordered, non-finite and over-long spans",
+    modules=[("functions.rs", "verif_builtins.rs")], harnesses=["u_guard_range", "u_guard_round", "u_guard_unary_math"],
+    functions=[("functions.rs", "call", "BuiltInFunction")],
+    prepare=prep_values, timeout=1500, extra=("--no-unwinding-checks",),
+    assumptions=BUILTIN_STUBS + ["--no-unwinding-checks: loops after a guard (range's list construction) are cut at 2 "
+                                 "iterations; obligations up to the loop are complete over all f64, loop bodies are bounded"])
+
 U_PREC = KaniUnit(
     "U-PREC", "operator_info orders the 26 operators as the C10 table; ^ alone is right-associative; table rows "
     "pair each operator with its grammar rule",
@@ -140,7 +446,7 @@ PRINTER_ASSUMED = [
     "operand they print (read, not proved: the arms are format! string assembly)",
 ]
 
-prop("C07", [U_PARENS, U_PARENS_OPERAND, U_PREC], "other",
+prop("C07", [U_PARENS, U_PARENS_OPERAND, U_PREC, U_QUOTE], "other",
      "Contract-based proof (Kani/CBMC, full finite or fully symbolic domains) that the printer's parenthesisation "
      "decision functions wrap every operand that re-parsing would regroup. Decides the 'same expression trees' part of "
      "C07 for operator/term structure; layout, quoting and number text are assumptions or other units.",
@@ -156,19 +462,66 @@ prop("C10", [U_PREC], "other",
       "that build_pratt_parser registers the table in this order (U-PRATT-REG pending)"],
      ["pest PrattParser semantics"])
 
-prop("C01", [U_ARITY, U_HEAP], "other",
+prop("C01", [U_ARITY, U_HEAP, U_BIND_SAFE, U_GUARD], "other",
      "Absence of panics is Kani's default postcondition (bounds, unwrap/expect, overflow, unreachable). Units: arity "
      "check before indexing, heap typed-pointer invariant (Verus).",
      ["pest parsing of arbitrary UTF-8 and pairs_to_expr unwraps", "ariadne rendering and span-inside-text",
       "serde_json", "formatter string slicing", "native stack depth"],
      STUB_ASSUMPTIONS)
 
-prop("C12", [U_CMP_SCALAR, U_CMP_TAGS, U_ORDERING], "other",
+prop("C12", [U_CMP_SCALAR, U_CMP_TAGS, U_ORDERING, U_UCMP], "other",
      "Contracts on Value::equals / Value::compare / check_ordering proved for every scalar triple and every pair of "
      "type tags. Strings, lists and records (lexicographic rule, key-order-insensitive record equality) are NOT decided.",
      ["string/list/record comparison (heap recursion: >15 min in CBMC for two 2-element lists; Verus rejects the zip loop)",
       "that each operator arm passes the right expected set (U-BINOP-* units)"],
      STUB_ASSUMPTIONS[:2])
+
+prop("C11", [U_BINOP_SCALAR, U_BINOP_DISPATCH, U_BINOP_ROUTE, U_ORDERING], "other",
+     "Scalar half of C11: the scalar arm block and the dot-operator arms of evaluate_binary_op_ast are sliced verbatim and "
+     "proved against the statement for all operators and all scalar operands (all f64). Broadcasting arms are NOT decided.",
+     ["broadcasting arms (list-scalar, scalar-list, list-list): >15 min in CBMC even at length 2; Verus rejects the text",
+      "string concatenation by + (format!/String)", "the value of ^ beyond 'a number' (f64::powf primitive)"],
+     BINOP_STUBS)
+
+prop("C04", [U_ARITY, U_ARITY_LAMBDA, U_BIND], "other",
+     "Arity classes and positional binding: can_accept for all usize (complete); get_arity/check_arity and the binding "
+     "loop + call-time scope chain of FunctionDef::call for parameter lists of <= 3 parameters (bounded, labelled). "
+     "What is captured (free-variable analysis) and call-site independence are NOT decided.",
+     ["collect_free_variables / capture at definition time", "call-site independence of whole programs"],
+     CALL_STUBS)
+
+prop("C18", [U_DEPTH, U_BIND_SAFE], "other",
+     "Contract on FunctionDef::call for the call-depth guard (all built-ins, all usize depths): depth > 1000 => error "
+     "before the callee; else the callee gets depth + 1. Native stack sufficiency is NOT decided.",
+     ["that 1001 nested calls fit the native stack of the release build; that a few hundred calls succeed",
+      "depth threading through every evaluator arm (U-DEPTH-THREAD, partly in U-BINOP-SCALAR apply:call-depth-not-decreased)"],
+     CALL_STUBS)
+
+prop("C17", [U_CONVERT], "other",
+     "Contracts on the conversion formulas (all f64, bit-exact) and on convert()'s category check / composition with "
+     "resolve_unit abstracted by its contract. Identifier resolution over the real 200-unit table, round-trip error "
+     "bounds and prefix ratios are NOT decided.",
+     ["resolve_unit (exact-then-unique-case-insensitive) on the real table: String/to_lowercase/iterator code",
+      "round-trip and transitivity error bounds ((v*c)/c ~ v): symbolic fdiv chains exceed CBMC's budget; Verus has no float theory",
+      "table contents (no identifier listed twice, metric prefix ratios): a finite fact that concrete execution would settle, "
+      "outside this technique family"],
+     STUB_ASSUMPTIONS[:2])
+
+prop("C06", [U_JSON_SCALAR], "other",
+     "Structural mapping SerializableValue <-> serde_json::Value <-> heap value proved to be the identity on scalars "
+     "(all finite f64 bit-exact). Strings, lists, records and the JSON text layer are NOT decided.",
+     ["strings / lists / records (recursion over Vec / IndexMap / serde_json::Map)",
+      "JSON text <-> double (serde_json::to_string / from_str; serde_json is built WITHOUT float_roundtrip, so parsing is "
+      "not guaranteed correctly rounded - observation by reading, outside this technique)"],
+     FMT_BT)
+
+prop("C03", [U_ASSIGN, U_DOASSIGN, U_ENV, U_ENV_AUDIT, U_BIND], "other",
+     "Per-site contracts for every place a name gets bound: the top-level Assignment arm, do-block assignment, the "
+     "Environment scope chain, and call-time parameter scopes (U-BIND); plus a frame audit that there is no other "
+     "insert site. Bounded in the name pool / chain depth (labelled). Whole-session induction is a paper step.",
+     ["induction over statement sequences (each step is proved, the composition is not)", "REPL/CLI drivers",
+      "that not/do/return/output cannot be identifiers (grammar)"],
+     ASSIGN_STUBS)
 
 
 NOT_APPLICABLE = {
